@@ -175,6 +175,7 @@ type hist struct {
 	opn        int
 	dead       bool
 	fatal      bool
+	forceDev   *drv.Dev // next opReports addresses this device (reports in the same prefix as its authorization)
 }
 
 func (h *hist) op(format string, a ...interface{}) {
@@ -269,6 +270,16 @@ func (h *hist) opAuthorize() string {
 	st, _, _ := retry(func() (int, []byte, error) { return h.Authorize(a) })
 	if st == 200 {
 		h.all[id] = d
+		// in half of the cases the new device reports over capacity / exactly at its limit BEFORE the next
+		// restart: whatever the capacity rule needs must survive the restart together with the device
+		if h.rng.Intn(2) == 0 {
+			for _, k := range []string{"over-capacity", "at-limit", "over-capacity"} {
+				h.forceDev = d
+				h.opReports(k)
+			}
+			h.forceDev = nil
+			h.r.Count("authorize.followed_by_limit_reports", 1)
+		}
 	}
 	return "authorize"
 }
@@ -368,6 +379,8 @@ func (h *hist) opReports(kind string) string {
 			return ""
 		}
 		d = bs[h.rng.Intn(len(bs))]
+	} else if h.forceDev != nil {
+		d = h.forceDev
 	} else {
 		ds := h.authorizedKnown()
 		if len(ds) == 0 {
@@ -398,6 +411,8 @@ func (h *hist) opReports(kind string) string {
 			rep = d.Report(slot, 2+uint64(h.rng.Int63n(int64(capa))))
 		case "over-capacity":
 			rep = d.Report(slot, capa*135/100+1+uint64(h.rng.Intn(500)))
+		case "at-limit":
+			rep = d.Report(slot, capa*135/100)
 		case "negative":
 			rep = d.Report(slot, uint64(-int64(1+h.rng.Intn(50000))))
 		case "sentinel":
